@@ -3,7 +3,7 @@
 The real agent send path (send_bundle, TX chain with the Fragment step, re-entry of each fragment) runs with a
 payload of symbolic length (opaque blob with provenance) and a symbolic route MTU; every octet string handed to
 the convergence layer is decoded by the independent RFC 9171 reader. '''
-from vf.engine import cur, blen, same_bytes, is_sym, Cut
+from vf.engine import SBuf, cur, blen, same_bytes, is_sym, Cut
 from vf.oracle import rfc9171
 from vf.bpenv import BpWorld
 
@@ -18,13 +18,13 @@ MANIFEST = {
     'ref': '5 C05'}
 BOUNDS = {
     'quick': dict(fragments='<= 3 (more are cut)', crc_types='{0,1,2} for primary and payload', ext_blocks='none | one plain | one replicated | both',
-                  flags='none | NO_FRAGMENT | IS_FRAGMENT', security='off'),
-    'thorough': dict(fragments='<= 5', crc_types='all 9 combinations', ext_blocks='as quick', flags='as quick', security='off'),
+                  flags='none | NO_FRAGMENT | IS_FRAGMENT', security='off | BIB over the payload | BCB over the payload (ideal primitives)'),
+    'thorough': dict(fragments='<= 5', crc_types='all 9 combinations', ext_blocks='as quick', flags='as quick', security='as quick'),
 }
 ASSUMPTIONS = [
     'payload content is opaque; its CRC is an uninterpreted value of the right width',
     'EIDs are fixed text; lifetime default; creation time in [2^32,2^64), sequence number in [0,23] (one CBOR head class each)',
-    'security policy off (BIB-on-fragment growth is not explored here)',
+    'security-on cases: COSE context with a symmetric key over ideal primitives (vf/idealcose.py); P < 2^62 there',
 ]
 REQUIRED_CLASSES = {'all': ['fragmented', 'whole']}
 QUICK_VALIDATE = 6
@@ -43,7 +43,32 @@ def cases(tier):
         out.append(dict(pcrc=2, bcrc=2, ext='repl', flags=fl, origin='local', kfrag=3))
     out.append(dict(pcrc=2, bcrc=2, ext='both', flags='none', origin='forwarded', kfrag=3))
     out.append(dict(pcrc=0, bcrc=1, ext='none', flags='none', origin='forwarded', kfrag=3))
+    # security policy on: a BIB (COSE_Mac0, ideal MAC) over the payload is applied by the transmit chain
+    out.append(dict(pcrc=2, bcrc=2, ext='none', flags='none', origin='local', kfrag=3, sec='bib'))
+    out.append(dict(pcrc=1, bcrc=0, ext='repl', flags='none', origin='local', kfrag=3, sec='bib'))
+    out.append(dict(pcrc=2, bcrc=1, ext='none', flags='none', origin='local', kfrag=3, sec='bcb'))
     return out
+
+
+def security_on(w, what='bib'):
+    ''' The same security association on an agent: BIB (or BCB) over the payload block with a symmetric key. '''
+    import re
+    from vf import idealcose
+    from bp.app.bpsec import SecAssociation, SecOperation
+    from pycose import algorithms
+    from pycose.keys import keyops, SymmetricKey
+    idealcose.install()
+    key = SymmetricKey(k=bytes(range(32)), optional_params={'ALG': algorithms.HMAC256, 'KID': b'mackey',
+                                                            'KEY_OPS': [keyops.MacCreateOp, keyops.MacVerifyOp]})
+    extra = {}
+    if what == 'bcb':
+        key = SymmetricKey(k=bytes(range(32)), optional_params={'ALG': algorithms.A256GCM, 'KID': b'enckey',
+                                                                'KEY_OPS': [keyops.EncryptOp, keyops.DecryptOp]})
+        extra = dict(content_iv=[bytes(range(200, 212))])
+    ctx = w.agent._app['bpsec']._contexts[3]
+    ctx.sym_key_store[key.kid] = key
+    ctx.sec_assoc.append(SecAssociation(src_pat=re.compile('.*'), dst_pat=re.compile('.*'), tgt_blk_types=[1],
+                                        templates=[SecOperation(sec_type=what, role='source', priv_key_id=key.kid, **extra)]))
 
 
 def build_bundle(c, case, P, payload):
@@ -77,12 +102,16 @@ def harness(case, tier):
     bpenv.CTR_COUNT[1] = None
     P = c.sym_int('P', 0, 2 ** 64 - 1, size=True)
     M = c.sym_int('M', 1, 2 ** 64 - 1, size=True)
+    if case.get('sec'):
+        c.assume(P < 2 ** 62)           # (ciphertext = plaintext + 16 octets must still have a CBOR length)
     payload = c.sym_blob('payload', P)
     ctr = build_bundle(c, case, P, payload)
     ref = reference_encoding(c, case, P, payload)
     # unwinding bound: K fragments (+1 for the decoded copy of a forwarded bundle)
     w = BpWorld(node_id='dtn://node/', ctr_cap=case['kfrag'] + 1)
     w.add_tx_route('.*', mtu=M)
+    if case.get('sec'):
+        security_on(w, case['sec'])
     # the unfragmented encoding, from the same builder on an agent without MTU
     w0 = None
     if case['origin'] == 'forwarded':
@@ -102,6 +131,11 @@ def harness(case, tier):
     raised_in_idle = [e for (_s, e) in esc]
     c.prove(not raised_in_idle, 'no-exception-from-fragment-resend', detail=[repr(e) for e in raised_in_idle])
     may_fragment = case['flags'] == 'none'
+    # what is fragmented is the payload block as the unfragmented bundle carries it (ciphertext under a BCB)
+    orig = rfc9171.decode_bundle(ref)
+    payload = [x for x in orig['blocks'] if bool(x['type'] == 1)][0]['data']
+    payload = payload if isinstance(payload, SBuf) else SBuf.mk(list(SBuf.of(payload)))
+    P = blen(payload)
     fits = blen(ref) <= M
     if bool(fits) or not may_fragment:
         # sent unchanged, exactly once
@@ -121,7 +155,6 @@ def harness(case, tier):
         c.prove((M < room) | (P == 0), 'fragmentable-bundle-is-sent-as-fragments',
                 detail=dict(M=M, non_payload=blen(ref) - P, P=P, err=repr(err)))
         return {'class': 'impossible', 'n': 0, 'err': type(err).__name__}
-    orig = rfc9171.decode_bundle(ref)
     off = 0
     tiles = []
     for i, d in enumerate(sent):
@@ -165,6 +198,8 @@ def reference_encoding(c, case, P, payload):
     import dbus.service
     w0 = BpWorld(node_id='dtn://node/')
     w0.add_tx_route('.*', mtu=None)
+    if case.get('sec'):
+        security_on(w0, case['sec'])
     # rebuild with the same symbolic inputs (same names -> same terms)
     ctr0 = build_bundle(RecallCtx(c), case, P, payload)
     w0.send(ctr0)
